@@ -426,8 +426,9 @@ func (s *scriptReader) Read(p []byte) (int, error) {
 	if s.chunk > 0 && k > s.chunk {
 		k = s.chunk
 	}
-	if s.delay > 0 {
-		time.Sleep(s.delay)
+	delay := s.delay
+	if delay > 0 {
+		time.Sleep(delay)
 	}
 	if s.gc && s.gave > 0 { // only once this call holds bytes: a finalizer runs once, and it should find something to wipe
 		settle()
@@ -447,6 +448,9 @@ func (s *scriptReader) Read(p []byte) (int, error) {
 		e := Event{"op": "Read", "asked": len(p), "gave": k, "bytes": ints(b), "errkind": st.Err}
 		if s.gc {
 			e["gc"] = true // (a re-execution of this unit lets the collector run at the same place)
+		}
+		if delay > 0 {
+			e["delay_ms"] = int(delay / time.Millisecond)
 		}
 		emit(e)
 	}
@@ -531,9 +535,16 @@ func wrapSource(s *scriptReader, how string) io.Reader {
 }
 
 // recNewMnemonic: Call event, the call (Read events come from the source), Return event.
+// srcDelayMs: how long the installed scripted source takes to answer each Read during the current call (0: at once)
+var srcDelayMs int
+
 func recNewMnemonic(n int64, lang int64, extra Event) (out string, err error) {
 	n, lang = narrow(n), narrow(lang)
-	emit(merge(Event{"op": "NewMnemonicCall", "n": bigRec(n), "lang": langField(lang)}, extra))
+	call := Event{"op": "NewMnemonicCall", "n": bigRec(n), "lang": langField(lang)}
+	if srcDelayMs > 0 {
+		call["src_delay_ms"] = srcDelayMs // (a re-execution gives the call an equally slow source)
+	}
+	emit(merge(call, extra))
 	o := guarded(func() { out, err = bip39.NewMnemonic(int(n), bip39.Language(lang)) })
 	if o.panicked && strings.Contains(o.panicTxt, "verif: injected panic") {
 		// the SOURCE panicked (a defect of the caller's reader, not of the library) and the caller recovered, as a
